@@ -644,40 +644,117 @@ func (c *Ctx) countActionsTable() {
 			c.violate("decision-table", site, a, sw.Pos(), "an action "+a+" must increment exactly the "+counter[a]+" counter by one")
 		}
 	}
-	// ActionSources denormalises every source
+	// ActionSources denormalises every source: every channel that can be an element of a returned
+	// slice is DenormalizeActions(member.Compute(...))
 	sinfo := src.Pkg.TypesInfo
-	okDen := false
-	ast.Inspect(src.Decl.Body, func(n ast.Node) bool {
-		r, ok := n.(*ast.RangeStmt)
-		if !ok {
-			return true
+	okDen := true
+	nElems := 0
+	badElem := ""
+	defsAll := singleDefs(sinfo, src.Decl.Body)
+	isDen := func(e ast.Expr) bool {
+		call, ok := ast.Unparen(e).(*ast.CallExpr)
+		if !ok || !strings.HasSuffix(calleeName(sinfo, call), "strategy.DenormalizeActions") || len(call.Args) != 1 {
+			return false
 		}
-		ast.Inspect(r.Body, func(m ast.Node) bool {
-			as, ok := m.(*ast.AssignStmt)
-			if !ok || len(as.Rhs) != 1 {
+		arg := call.Args[0]
+		// the Compute result may go through a local first: actions := member.Compute(...)
+		if id, isID := arg.(*ast.Ident); isID {
+			if def := defsAll[sinfo.ObjectOf(id)]; def != nil {
+				arg = def
+			}
+		}
+		if inner, ok := arg.(*ast.CallExpr); ok {
+			if sel, ok := inner.Fun.(*ast.SelectorExpr); ok && sel.Sel.Name == "Compute" {
 				return true
 			}
-			if call, ok := as.Rhs[0].(*ast.CallExpr); ok && strings.HasSuffix(calleeName(sinfo, call), "strategy.DenormalizeActions") && len(call.Args) == 1 {
-				arg := call.Args[0]
-				// the Compute result may go through a local first: actions := member.Compute(...)
-				if id, isID := arg.(*ast.Ident); isID {
-					if def := singleDefs(sinfo, r.Body)[sinfo.ObjectOf(id)]; def != nil {
-						arg = def
-					}
-				}
-				if inner, ok := arg.(*ast.CallExpr); ok {
-					if sel, ok := inner.Fun.(*ast.SelectorExpr); ok && sel.Sel.Name == "Compute" {
-						okDen = true
-					}
-				}
+		}
+		return false
+	}
+	elem := func(e ast.Expr) {
+		nElems++
+		if id, isID := ast.Unparen(e).(*ast.Ident); isID {
+			if def := defsAll[sinfo.ObjectOf(id)]; def != nil {
+				e = def
 			}
-			return true
-		})
+		}
+		if !isDen(e) {
+			okDen = false
+			if badElem == "" {
+				badElem = exprString(e)
+			}
+		}
+	}
+	var elemsOf func(e ast.Expr, depth int)
+	elemsOf = func(e ast.Expr, depth int) {
+		switch x := ast.Unparen(e).(type) {
+		case *ast.CompositeLit:
+			for _, el := range x.Elts {
+				if kv, ok := el.(*ast.KeyValueExpr); ok {
+					el = kv.Value
+				}
+				elem(el)
+			}
+		case *ast.Ident:
+			obj := sinfo.ObjectOf(x)
+			ast.Inspect(src.Decl.Body, func(n ast.Node) bool {
+				as, ok := n.(*ast.AssignStmt)
+				if !ok {
+					return true
+				}
+				for i, l := range as.Lhs {
+					if i >= len(as.Rhs) {
+						break
+					}
+					if ix, ok := l.(*ast.IndexExpr); ok {
+						if id, ok := ix.X.(*ast.Ident); ok && sinfo.ObjectOf(id) == obj {
+							elem(as.Rhs[i])
+						}
+					}
+					if id, ok := l.(*ast.Ident); ok && sinfo.ObjectOf(id) == obj {
+						switch r := ast.Unparen(as.Rhs[i]).(type) {
+						case *ast.CallExpr:
+							if f, ok := r.Fun.(*ast.Ident); ok && f.Name == "append" {
+								for _, a := range r.Args[1:] {
+									elem(a)
+								}
+							} else if f, ok := r.Fun.(*ast.Ident); !ok || f.Name != "make" {
+								okDen = false
+								if badElem == "" {
+									badElem = exprString(r)
+								}
+							}
+						case *ast.CompositeLit:
+							if depth < 2 {
+								elemsOf(r, depth+1)
+							}
+						}
+					}
+				}
+				return true
+			})
+		default:
+			okDen = false
+			if badElem == "" {
+				badElem = exprString(e)
+			}
+		}
+	}
+	ast.Inspect(src.Decl.Body, func(n ast.Node) bool {
+		if _, isLit := n.(*ast.FuncLit); isLit {
+			return false
+		}
+		if r, ok := n.(*ast.ReturnStmt); ok && len(r.Results) == 1 {
+			elemsOf(r.Results[0], 0)
+		}
 		return true
 	})
+	if nElems == 0 {
+		okDen = false
+	}
+	run.Count("action_source_elements", nElems)
 	run.Oblige(okDen)
 	if !okDen {
-		c.violate("decision-table", "strategy.ActionSources", "denormalise", src.Decl.Pos(), "every source must be DenormalizeActions(strategy.Compute(...)): the votes are over standing recommendations")
+		c.violate("decision-table", "strategy.ActionSources", "denormalise", src.Decl.Pos(), "every source must be DenormalizeActions(strategy.Compute(...)): the votes are over standing recommendations; a returned element is "+short(badElem, 80))
 	}
 }
 
@@ -927,29 +1004,52 @@ func CheckC08(c *Ctx) {
 			}
 		}
 	}
-	// ComputeWithOutcome wiring
-	if fi := c.fn("strategy", "", "ComputeWithOutcome"); fi != nil {
-		info := fi.Pkg.TypesInfo
-		var closings, acts bool
-		ast.Inspect(fi.Decl.Body, func(n ast.Node) bool {
-			call, ok := n.(*ast.CallExpr)
-			if !ok {
-				return true
-			}
-			name := calleeName(info, call)
-			if strings.HasSuffix(name, "strategy.Outcome") && len(call.Args) == 2 {
-				// first argument derives from SnapshotsAsClosings, second from s.Compute
-				closings = derivesFrom(info, fi.Decl, call.Args[0], "asset.SnapshotsAsClosings")
-				acts = derivesFrom(info, fi.Decl, call.Args[1], ".Compute")
-			}
-			return true
-		})
-		run.Oblige(closings && acts)
-		if !(closings && acts) {
-			c.violate("outcome/wiring", "strategy.ComputeWithOutcome", "wiring", fi.Decl.Pos(), "the outcome must be computed from the snapshots' closing prices and the same strategy's actions")
-		}
-	}
+	c.computeWithOutcomeWiring("outcome/wiring")
 	run.Floor("table_points", 30)
+}
+
+// computeWithOutcomeWiring: the outcome is Outcome(closings of the snapshots, the strategy's own
+// actions) and the actions handed back are those same actions, untransformed.
+func (c *Ctx) computeWithOutcomeWiring(rule string) {
+	run := c.Run
+	fi := c.fn("strategy", "", "ComputeWithOutcome")
+	if fi == nil {
+		run.Break("anchor missing: strategy.ComputeWithOutcome")
+		return
+	}
+	info := fi.Pkg.TypesInfo
+	var closings, acts bool
+	ast.Inspect(fi.Decl.Body, func(n ast.Node) bool {
+		call, ok := n.(*ast.CallExpr)
+		if !ok {
+			return true
+		}
+		name := calleeName(info, call)
+		if strings.HasSuffix(name, "strategy.Outcome") && len(call.Args) == 2 {
+			// first argument derives from SnapshotsAsClosings, second from s.Compute
+			closings = derivesFrom(info, fi.Decl, call.Args[0], "asset.SnapshotsAsClosings")
+			acts = derivesFrom(info, fi.Decl, call.Args[1], ".Compute")
+		}
+		return true
+	})
+	retActs := true
+	ast.Inspect(fi.Decl.Body, func(n ast.Node) bool {
+		if _, isLit := n.(*ast.FuncLit); isLit {
+			return false
+		}
+		if r, ok := n.(*ast.ReturnStmt); ok && len(r.Results) == 2 {
+			if !derivesFrom(info, fi.Decl, r.Results[0], ".Compute") {
+				retActs = false
+			}
+		}
+		return true
+	})
+	run.Oblige(closings && acts && retActs)
+	if !(closings && acts) {
+		c.violate(rule, "strategy.ComputeWithOutcome", "wiring", fi.Decl.Pos(), "the outcome must be computed from the snapshots' closing prices and the same strategy's actions")
+	} else if !retActs {
+		c.violate(rule, "strategy.ComputeWithOutcome", "actions", fi.Decl.Pos(), "the actions handed back must be the strategy's own action stream, untransformed")
+	}
 }
 
 type machineInfo struct {
